@@ -361,7 +361,7 @@ pub struct PacketSent {
 
     /// only if header.packet_type === "version_negotiation"
     #[builder(default)]
-    #[serde(skip_serializing_if = "Vec::is_empty")]
+    #[serde(default, skip_serializing_if = "Vec::is_empty")]
     supported_versions: Vec<QuicVersion>,
     #[builder(default)]
     raw: Option<RawInfo>,
@@ -404,7 +404,7 @@ pub struct PacketReceived {
 
     /// only if header.packet_type === "version_negotiation"
     #[builder(default)]
-    #[serde(skip_serializing_if = "Vec::is_empty")]
+    #[serde(default, skip_serializing_if = "Vec::is_empty")]
     supported_versions: Vec<QuicVersion>,
     #[builder(default)]
     raw: Option<RawInfo>,
